@@ -167,6 +167,26 @@ def dec_value(e):
     raise HarnessError('cannot decode value {!r}'.format(e))
 
 
+def fresh_copy(v):
+    """An object equal to v but (where the language allows) not identical
+    to it."""
+    if isinstance(v, Obj) or isinstance(v, bool) or v is None:
+        return v
+    if isinstance(v, int):
+        return int(str(v))
+    if isinstance(v, float):
+        return float(repr(v))
+    if isinstance(v, str):
+        return ''.join(list(v)) if len(v) > 1 else v
+    if isinstance(v, bytes):
+        return bytes(bytearray(v))
+    if isinstance(v, tuple):
+        return tuple([fresh_copy(x) for x in v])
+    if isinstance(v, frozenset):
+        return frozenset([fresh_copy(x) for x in v])
+    return v
+
+
 def canon_key(v):
     """A total, hash-independent order on the values a set may hold."""
     if isinstance(v, bool):
